@@ -282,6 +282,7 @@ type X struct {
 	Replay        bool
 	genRng        *Rng // run-time generation (preemption points); results are stored in the world
 	given         any  // op.Arg == "given": hand this Go value to Parse as is
+	envDP         any  // world parameter env_shared: the one zenv provider every call of the world uses
 	leanRecs      [48]*OpRec
 	OpaqueResults bool
 	SanitizeBad   string
@@ -575,6 +576,11 @@ func collectRaw(how string, rawAny any) (sanitized string) {
 	switch raw := rawAny.(type) {
 	case z.ZogIssueMap:
 		switch how {
+		case "drain":
+			// the result is the caller's: a handler that removes what it has dealt with ends up with an empty map (nothing is handed back)
+			for _, k := range sortedKeys(raw) {
+				delete(raw, k)
+			}
 		case "CollectMap", "CollectList":
 			z.Issues.CollectMap(raw)
 		case "SanitizeMapAndCollect", "SanitizeListAndCollect":
